@@ -229,6 +229,16 @@ class Ref:
         if 'dollar' in node:
             out.append(('$' if self.interp[-1] else '$$') * node['dollar'])
             return
+        if 'code' in node:
+            # a code block that defines functions: the names it defines are plain names from here on; its
+            # own parameter names are nobody else's business
+            g = {'__builtins__': _builtins}
+            g.update(self.helpers)
+            g.update(scope.flatten())
+            exec(node['code'], g, g)
+            for name in node.get('defines', ()):
+                self.helpers[name] = g[name]
+            return
         if 'comment' in node:
             kind = node.get('kind', '')
             if kind == '!':
